@@ -60,7 +60,7 @@ VARIABLES b,         \* the buffer under test: [mode, cap, written, committed, b
           open,      \* stack of builders open on b (1 = object builder, 2 = its open sub-builder)
           othOpen,   \* <<>> or <<id>>: a NodeBuilder is open on oth
           nextId, nobj,
-          outcome,   \* "ok" | "full"
+          outcome,   \* "ok" | "full" | "thrown" (the callback of the CallbackBuffer threw)
           purgeLog,  \* <<old, new>> offsets reported by the last purge_removed
           commitRet, \* value returned by the last commit() / clear()
           took,      \* <<>> or <<items of the nested buffer returned by this step's get_last_nested (after its purge)>>
@@ -401,19 +401,22 @@ HandOver(viaCallback) ==       \* read(): swap in a fresh buffer of the initial 
 
 NoHandOver == UNCHANGED <<b, handed>> /\ NoOut
 
-CbPossiblyFlush ==
+(* th: what the callback does with the buffer it is handed: 0 takes it and returns, 1 looks at it and throws, 2 takes it
+   and throws.  flush() is `m_callback(read())`: the fresh buffer is swapped in BEFORE the callback runs, so a callback
+   that fails leaves the same state behind as one that returns; the caller just sees the exception ("thrown"). *)
+CbPossiblyFlush(th) ==
     /\ Steps /\ Idle /\ cfg0.wrap
-    /\ IF b.committed > cfg0.cbmax /\ cbHas /\ b.committed > 0 THEN HandOver(TRUE) ELSE NoHandOver
-    /\ outcome' = "ok"
+    /\ IF b.committed > cfg0.cbmax /\ cbHas /\ b.committed > 0 THEN HandOver(TRUE) ELSE th = 0 /\ NoHandOver
+    /\ outcome' = IF th = 0 THEN "ok" ELSE "thrown"
     /\ UNCHANGED <<oth, open, othOpen, nextId, nobj, purgeLog, commitRet, cbHas, everC>>
-    /\ Rec("CbPossiblyFlush", [x |-> 0])
+    /\ Rec("CbPossiblyFlush", [th |-> th])
 
-CbFlush ==
+CbFlush(th) ==
     /\ Steps /\ Idle /\ cfg0.wrap
-    /\ IF cbHas /\ b.committed > 0 THEN HandOver(TRUE) ELSE NoHandOver
-    /\ outcome' = "ok"
+    /\ IF cbHas /\ b.committed > 0 THEN HandOver(TRUE) ELSE th = 0 /\ NoHandOver
+    /\ outcome' = IF th = 0 THEN "ok" ELSE "thrown"
     /\ UNCHANGED <<oth, open, othOpen, nextId, nobj, purgeLog, commitRet, cbHas, everC>>
-    /\ Rec("CbFlush", [x |-> 0])
+    /\ Rec("CbFlush", [th |-> th])
 
 CbRead ==
     /\ Steps /\ Idle /\ cfg0.wrap
@@ -449,8 +452,8 @@ Next == \/ On("OpenObject") /\ \E k \in Kinds : OpenObject(k)
         \/ On("TakeNested") /\ \E p \in BOOLEAN : TakeNested(p)
         \/ On("Swap") /\ Swap
         \/ On("Move") /\ Move
-        \/ On("CbPossiblyFlush") /\ CbPossiblyFlush
-        \/ On("CbFlush") /\ CbFlush
+        \/ On("CbPossiblyFlush") /\ \E th \in 0..2 : CbPossiblyFlush(th)
+        \/ On("CbFlush") /\ \E th \in 0..2 : CbFlush(th)
         \/ On("CbRead") /\ CbRead
         \/ On("CbSetCallback") /\ \E o \in BOOLEAN : CbSetCallback(o)
 
